@@ -907,7 +907,10 @@ mod parsers {
         }
         for t in strs("/users/[[user_id]]/posts/[[post_id]]").into_iter().chain(strs("/a/[[b]]")) {
             let tt = t.clone();
-            if panic::catch_unwind(move || { let _ = crate::url::path::UrlPath::extract_parts_from_pattern(&tt); let _ = crate::url::path::UrlPath::extract("/users/1/posts/2", &tt); let _ = crate::url::path::UrlPath::is_matching(&tt, "/a/[[b]]"); }).is_err() {
+            if panic::catch_unwind(move || { let _ = crate::url::path::UrlPath::extract_parts_from_pattern(&tt); let _ = crate::url::path::UrlPath::extract("/users/1/posts/2", &tt); let _ = crate::url::path::UrlPath::is_matching(&tt, "/a/[[b]]");
+                let _ = crate::url::path::UrlPath::is_matching("/a/1", &tt); let _ = crate::url::path::UrlPath::is_matching("/users/1/posts/2", &tt); let _ = crate::url::path::UrlPath::extract("/a/1", &tt);
+                let mut hm = std::collections::HashMap::new(); hm.insert("b".to_string(), "1".to_string()); hm.insert("user_id".to_string(), "1".to_string()); hm.insert("post_id".to_string(), "2".to_string());
+                let _ = crate::url::path::UrlPath::build(hm, &tt); }).is_err() {
                 h.hit("parsers", "c20_panic_url_path", "UrlPath", &t, "panic");
             }
         }
@@ -1281,7 +1284,7 @@ mod mpform {
 mod probe2 {
     pub fn run() {
         std::panic::set_hook(Box::new(|i| { eprintln!("PANIC {}", i); }));
-        for t in ["/users/[", "/users/[[", "/a/[[b]]]", "/a/]]", "]]", "[[]]", "/a/[[b]][[c]]", "/[[a"] {
+        for t in ["/users/[", "/users/[[", "/a/[[b]]]", "/a/]]", "]]", "[[]]", "/a/[[b]][[c]]", "/[[a", "a]]b]]", "/a]]/b]]", "/[[a]]x]]", "]]]]", "/a/[[b]]/c]]"] {
             let r1 = std::panic::catch_unwind(|| crate::url::path::UrlPath::extract_parts_from_pattern(t).is_ok());
             let r2 = std::panic::catch_unwind(|| crate::url::path::UrlPath::extract("/users/1/posts/2", t).is_ok());
             let r3 = std::panic::catch_unwind(|| crate::url::path::UrlPath::is_matching(t, "/a/[[b]]").is_ok());
